@@ -18,7 +18,7 @@ ASSUMPTIONS = ["the per-commit claims assume the database file predates the log'
                "WAL checksums are not read by the tool; the independent reader (harness/gen/walreader.py) verifies them"]
 
 KINDS = ["plain", "spill", "overflow_inplace", "ddl", "checkpoint_restart", "passive_checkpoint", "grow_shrink",
-         "header_pragmas", "rootmove", "plain"]
+         "header_pragmas", "rootmove", "fresh_wal", "plain"]
 
 
 def sqlite_view(db_path, wal_path, tables, sc, tag):
